@@ -143,7 +143,15 @@ def setup_dir(d, sc):
 # the child: run the scenario with the real library, die before the k-th intercepted action
 def run_steps(pdb2sql_cls, sc):
     src = sc['pdbpath'] if sc['pdbpath'] else list(sc['lines'])
-    db = pdb2sql_cls(src, sqlfile=sc['name'], fix_chainID=sc['fix'])
+    name = sc['name']
+    nc = sc.get('name_carrier')      # the same file name as pathlib.Path / numpy.str_ (sqlite3 and os accept both)
+    if nc == 'path':
+        import pathlib; name = pathlib.Path(name)
+    elif nc == 'npstr':
+        import numpy as np; name = np.str_(name)
+    elif nc == 'bytes':
+        name = os.fsencode(name)
+    db = pdb2sql_cls(src, sqlfile=name, fix_chainID=sc['fix'])
     for s in sc['steps']:
         try:
             if s[0] == 'commit':
@@ -159,7 +167,12 @@ def run_steps(pdb2sql_cls, sc):
                 db.add_column(s[1], s[2], s[3])
         except (ValueError, IndexError):
             pass                      # the caller catches the shape errors of update(): nothing was written
-    db._close(rmdb=not sc['keep'])
+    rm = not sc['keep']
+    fc = sc.get('flag_carrier')      # keep / remove said with a 0-1 integer or a NumPy boolean
+    if fc == 'int01': rm = int(rm)
+    elif fc == 'npbool':
+        import numpy as np; rm = np.bool_(rm)
+    db._close(rmdb=rm)
 
 def child(pdb2sql_cls, d, sc, kill_at, wfd):
     try:
@@ -319,6 +332,8 @@ def gen_scenario(rng, name, big=False, shape=None):
     sc = {'name': name, 'lines': L.pdb_lines(atoms), 'pdbpath': ('input structure.pdb' if usefile else None),
           'fix': rng.random() < 0.3, 'steps': steps, 'keep': rng.random() < 0.6, 'pre': pre,
           'victims': victims_for(rng, name)}
+    if rng.random() < 0.3: sc['flag_carrier'] = rng.choice(['int01', 'npbool'])
+    if rng.random() < 0.25 and not name.startswith('-') and '/' not in name: sc['name_carrier'] = rng.choice(['path', 'npstr', 'bytes'])
     return sc
 
 def feature_tags(sc, group, outcome, journal, nsteps):
